@@ -77,6 +77,13 @@ Theorem C10_vec_no_cross_talk : forall c x0 i ops st, vwf (length st) ops -> (i 
 Proof. exact vrun_project. Qed.
 Print Assumptions C10_vec_no_cross_talk.
 
+Example C10_vec_hyp_ok :
+  let c := {| c_theta := 1 # 2; c_dt := 1; c_sqdt := 1; c_mu := [0]; c_sigma := [1] |} in
+  let ops := [VCall [[1]; [2]; [-(1)]]; VReset (Some [1; 1]%nat); VCall [[0]; [0]; [0]]] in
+  vwf (length [[1]; [1]; [1]]) ops /\ (1 < length [[1]; [1]; [1]])%nat /\
+  fst (vrun c [1] [[1]; [1]; [1]] ops) = [[3 # 4]; [1 # 2]; [-(1 # 4)]] /\ project 1 ops = [OCall [2]; OReset; OCall [0]].
+Proof. split; [repeat constructor | split; [auto with arith | split; vm_compute; reflexivity]]. Qed.
+
 Theorem C10_vec_make_validates_n_envs : forall n x0,
   ((0 < n)%Z -> exists st, vec_make n x0 = Some st /\ length st = Z.to_nat n /\ forall i, (i < Z.to_nat n)%nat -> nth i st [] = x0) /\
   ((n <= 0)%Z -> vec_make n x0 = None).
@@ -90,9 +97,7 @@ Theorem C10_noise_fragments :
      Forall2 Qeq (ou_stepv theta dt sqdt mu sigma x n)
        (map (fun p => noise_ou_new_state (noise_ou_update (snd (fst p)) theta (fst (fst (fst p))) dt (snd (fst (fst p))) sqdt (snd p)))
             (combine (combine (combine mu sigma) x) n))) /\
-  (forall (init : option Q) z,
-     noise_ou_reset (match init with Some _ => true | None => false end) (match init with Some v => v | None => z end) z
-     == match init with Some v => v | None => z end).
+  (forall (b : bool) i z, noise_ou_reset b i z == (if b then i else z)).
 Proof. exact (conj frag_ou_update (conj frag_ou_stepv frag_ou_reset)). Qed.
 Print Assumptions C10_noise_fragments.
 
